@@ -104,7 +104,8 @@ SIBLINGS = {
     'C01-r2-3': ['C01', 'C02'],   # name map shared between minifier runs: non-injective renaming (C02)
     'C01-r3-2': ['C01', 'C02'],   # an unrenamed identifier collides with an earlier generated name: non-injective renaming (C02)
     'C08-r4-3': ['C08', 'C14'],
-    'C19-r5-2': ['C19', 'C20'],   # the change is in #include processing (a commented-out include is expanded): C20's "every other line unchanged"   # the AST *walker* skips if-blocks (the parser's tree is intact): require() inside an if is not packaged (C14)
+    'C19-r5-2': ['C19', 'C20'],
+    'C08-r6-3': ['C08', 'C14'],   # default AST-walker handlers missing for keyed table fields: the parser's tree is intact, build's RequireWalker crashes (C14)   # the change is in #include processing (a commented-out include is expanded): C20's "every other line unchanged"   # the AST *walker* skips if-blocks (the parser's tree is intact): require() inside an if is not packaged (C14)
 }
 
 # changes whose author's demonstration is not a violation of the property as stated (kept for the record, not counted as misses)
